@@ -275,6 +275,22 @@ impl<'a, I: MonItem> World<'a, I> {
         }
     }
 
+    /// insert_at of an item that still carries a pending modification of its own (it was the root of a one-element treap
+    /// when the modification was attached): the modification belongs to that one element and to nothing it is joined with
+    pub fn op_insert_pending(&mut self, i: usize, pos: usize, e: I::Elem, m: I::Mod) {
+        self.note(format!("insert_at pool[{}] pos {} elem {:?} carrying the pending modification {:?}", i, pos, e, m));
+        self.rep.inc("inserted_items_with_pending_modification");
+        let id = self.next_id;
+        self.next_id += 1;
+        let mut single = lib!(Treap::from_item(I::make(id, &e)));
+        single.root_mut().unwrap().attach(&m);
+        let item = single.root.take().unwrap().item;
+        let mut e2 = e;
+        I::apply_elem(&mut e2, &m);
+        lib!(self.pool[i].treap.insert_at(pos, item));
+        self.pool[i].model.insert(pos, (id, e2));
+    }
+
     pub fn op_remove_at(&mut self, i: usize, pos: usize) {
         self.note(format!("remove_at pool[{}] pos {}", i, pos));
         let want = self.pool[i].model.remove(pos);
@@ -502,7 +518,11 @@ pub fn run_random_case<I: MonItem>(case_seed: u64, rep: &mut Report, verbose: bo
                 5 => {
                     if total < 60 {
                         let via_lib = regime == Regime::Library || rng.chance(1, 3);
-                        w.op_insert_at(i, rng.range_usize(0, len), I::gen_elem(&mut rng), via_lib);
+                        if via_lib && rng.chance(1, 4) {
+                            w.op_insert_pending(i, rng.range_usize(0, len), I::gen_elem(&mut rng), I::gen_mod(&mut rng));
+                        } else {
+                            w.op_insert_at(i, rng.range_usize(0, len), I::gen_elem(&mut rng), via_lib);
+                        }
                     }
                 }
                 6 => {
